@@ -26,7 +26,7 @@ ASSUMPTIONS = [
     "numpy ufuncs, np.where and arithmetic operators are elementwise; numeric equality of the two modes is not decided",
     "values typed float (term parameters, ranges, thresholds) are single numbers",
 ]
-FLOORS = {"V1": 90, "V2": 1, "V3": 5, "V4": 2, "V5": 2, "V6": 40}
+FLOORS = {"V1": 90, "V2": 1, "V3": 5, "V4": 2, "V5": 2, "V6": 40, "V8": 50}
 
 SCALAR_ATTRS = {"value", "_value", "degree", "_degree", "activation_degree", "triggered"}
 SAFE_ATTRS = {"size", "ndim", "shape", "dtype", "name", "__name__", "enabled", "height", "lock_range", "lock_previous"}
@@ -366,6 +366,10 @@ def run(check: Check) -> None:
             continue
         check.analysed(f)
         kernel_elementwise(check, f, "V1", q)
+        if q.split(".")[-1] in ("membership", "tsukamoto", "compute", "hedge"):
+            from .common import coerce_first
+
+            coerce_first(check, f, "V8", f"{q}/coerce-first")
         n_bad += cross_row_decisions(check, f, "V5", q)
         n_fun += 1
     if not n_bad:
